@@ -12,1199 +12,1158 @@ Definition show_fres (r : fres) : string :=
   end.
 Definition check (rs : list rune) : string := digest (show_fres (format_res rs)).
 Definition full (rs : list rune) : string := show_fres (format_res rs).
-Eval vm_compute in ("<<<M263>>>" ++ check (runes_of_ascii "
-packet Z9_ //x
-{ @calculatedFrom( ""1"" )
-match
-body as u8x{ [ 7 ] :
-u ,
-[7
-,00, ""a\""b""
-, """" , ""\n"" , 00
-] : charz , 1	: // c
-Packet
-, """ ++ [28040; 24687]%N ++ runes_of_ascii """ :
-f32a ,  00 : // trailing space 
-len } ,@lengthOf(calculatedFrom )	MetaDataX
-    , Packet	@lengthOf(
-    int ) , repeat // `tick` ""quote"" 'q'
-char[ 7 ]calculatedFrom, @calculatedFrom(""a\\"" ) zchar[ //
-255 // " ++ [128512]%N ++ runes_of_ascii " emoji
-] f32a @calculatedFrom( """ ++ [233]%N ++ runes_of_ascii "t" ++ [233]%N ++ runes_of_ascii """ ) ,	@calculatedFrom( ""a\""b"" // packet A { u8 x, }
-)char[7
-    //	t
-    ] i8i8 @calculatedFrom(""a\\"") `crlf
-line` ,zchar[
-    0123456789	]
-x `line1
-line2`
-,@leftPad () repeat
-u64 stringy , @lengthOf( x	) repeat
-body
-{//	t
-Z9_ {
-repeat asx , repeat crc i64_ // " ++ [27880; 37322]%N ++ runes_of_ascii "
-, repeat rootA { repeat rootA MetaDataX `line1
-line2`
-    // `tick` ""quote"" 'q'
-    ,match
-i64_ as
-calculatedFrom {
-    7
-:
-x[ 7 ] : stringy , ""1"": i8i8 , [
-""1"" , 42 ,
-// trailing space 
-/// triple
-""" ++ [233]%N ++ runes_of_ascii "t" ++ [233]%N ++ runes_of_ascii """ , 10 ,
-255 , 0 , 10 ]
-: u ,
-""x y""
-:
-    i8i8 }
-// `tick` ""quote"" 'q'
-//x
-,uint64 _x `
-` ,char[ 0 ] i64_ @calculatedFrom( ""CRC32""
-)
-    , }, x_y_z {
-char[] T
-// a // b
-// @lengthOf(
-,} ,} ,repeat  u64 Foo `a\`,
-    uint8
-uint8x,
-match
-//	t
-// trailing space 
-roots
-as chars {1
-    : _x ""a\""b"" :uint8x, 42 : metadata // " ++ [128512]%N ++ runes_of_ascii " emoji
-, // `tick` ""quote"" 'q'
-[// @lengthOf(
-""\n"" ,
-255]
-: zchar
-[ """ ++ [233]%N ++ runes_of_ascii "t" ++ [233]%N ++ runes_of_ascii """ ,3
-, 4294967296 ,// trailing space 
-0123456789 , ""x y"" ] : metadata[ // c
-""it's"" , ""// no comment""
-]  :Z9_
-    , }
-,	}
-    , } // a // b
-MetaData rootA	{ char[ 4294967296 ] msg_type,// @lengthOf(
-char[]  u128, uint64 a1 , int8 crc , Pad
-    msg_type `doc`
-,
+Eval vm_compute in ("<<<M1685>>>" ++ check (runes_of_ascii "// c
+packet uint8x {
+    @tag(65535)
+    x_y_z,
+    char[] a1 @calculatedFrom(""`tick`""),
+    @tag(1)
+    @tag(1)
+    @tag(4294967296)
+    repeat string rootA `tab	here`,
+    repeat i32 tag,
 }
-//	t
-/// triple
-packet x_y_z
-    {@lengthOf( crc) match packetx as f32a	{ 0123456789:A
-,	00 :	u // @lengthOf(
-}, }
-")).
-Eval vm_compute in ("<<<M123>>>" ++ check (runes_of_ascii "
-packet _x{  leftPad `it's`
-    , match Logon as
-    matchKey { ""packet"" :  stringy,3
-: u
-    ,//
-""1"" : Pad }
-,  float32 Z9_ @lengthOf( i8i8	)
-    `" ++ [233]%N ++ runes_of_ascii "`
-    // " ++ [27880; 37322]%N ++ runes_of_ascii "
-    , @tag( 3 )match
-    //	t
-    As as Pad{
-"""" : chars
-, ""x y"" //
-: i64_	,  } ,  @calculatedFrom(""it's"" // c
-) @leftPad ( ' '
-) zchar[ 0123456789	] falsey , match	A as packetx
-{ [ 42]:
-matchKey // c
-, }// `tick` ""quote"" 'q'
-,@leftPad
-( ' ' )
-    match x
-    // c
-    as a1 { ""packet"" //x
-:
-    a1 , 10 : pack""{,}"" :  u8x// a // b
-, [ 007
-,00// trailing space 
-]
-:trueish ,
-    ""x y"" :pack //	t
-,
-""" ++ [233]%N ++ runes_of_ascii "t" ++ [233]%N ++ runes_of_ascii """
-:
-matchKey , } , @leftPad ( '0'
-) uint8x u
-    ,	zchar[
-    3 // a // b
-]
-    //	t
-    u ``
-    , @rightPad (
-    ' ') repeat _x
-`` , } MetaData Foo
-    {a1 Z9_ ,
-options1 T ,u32 u8x
-`crlf
-line`, metadata falsey,lengthOf
-x_y_z ,
-    } packet calculatedFrom { @tag( 3 ) string A,
-    match leftPad as a1	{//	t
-0123456789: calculatedFrom , }
-    ,
-    match crc//
-as
-    body {
-    00 : _x, } , o @calculatedFrom(	""x y"" )
-//
-// " ++ [128512]%N ++ runes_of_ascii " emoji
-,  } packet T { }  packet Logon { @leftPad
-(// @lengthOf(
-'\x00' )
-As @calculatedFrom(
-""a	b"" ) `line1
-line2`	, pack lengthOf // `tick` ""quote"" 'q'
-, } // `tick` ""quote"" 'q'")).
-Eval vm_compute in ("<<<M316>>>" ++ check (runes_of_ascii "// `tick` ""quote"" 'q'
-packet crc { @tag(0 ) //x
-chars , i8i8
-@lengthOf( packetx ), repeat
-f32a
-    {
-match packetx as a1{
-    ""x y""
-:
-//
-// `tick` ""quote"" 'q'
-Packet, } ,}
-, @leftPad(
-'\x00' )
-uint8 int ,
-match float as a1 {
-    // `tick` ""quote"" 'q'
-    [4294967296
-    ]
-:// " ++ [27880; 37322]%N ++ runes_of_ascii "
-Packet
-    , } //
-, repeat zchar[ 007 ] zchar`tab	here`
-    , repeat
-// " ++ [27880; 37322]%N ++ runes_of_ascii "
-// a // b
-x
-    , }	packet
-string_
-    // c
-    { char[
-0123456789] a1
-, @calculatedFrom( ""a\\"" ) @tag( 42)
-@leftPad
-('\x00' ) options1
-    @calculatedFrom( """ ++ [28040; 24687]%N ++ runes_of_ascii """
-)`it's`	, repeat
-rootA// packet A { u8 x, }
-{
-    //
-    match Logon as Packet { [10 ,	255 , 0,
-007 ,
-""CRC32""
-, ""abc"" ] : len , """ ++ [28040; 24687]%N ++ runes_of_ascii """:	a1	, } , match leftPad as Header { 007:  As
-, 255: repeatCount , /// triple
-"""" // packet A { u8 x, }
-: matchKey //
-, [ 255 ,
-    3,	""abc"" , """", ""\n"" , 1
-, """"// " ++ [27880; 37322]%N ++ runes_of_ascii "
-,
-42//x
-] : pack ,
+
+packet pack {
+    @calculatedFrom(""// no comment"")
+    @lengthOf(uint8x)
+    string zchar @calculatedFrom(""`tick`""),
 }
-, }
-// @lengthOf(
-// `tick` ""quote"" 'q'
-, int
-{int64 chars , }// @lengthOf(
-, } 	 ")).
-Eval vm_compute in ("<<<M1868>>>" ++ check (runes_of_ascii "root
-	packet
-lengthOf	{	// a // b
-	match
 
-    i64_ 
-as
-options1{ ""// no comment"": 
-// packet A { u8 x, }
-    	f32a 
-// @lengthOf(
+root packet tag {
+    // trailing space 
+    @tag(42)
+    @lengthOf(As)
+    @leftPad('0')
+    match u128 as float {
+        [00] : charz,
+    },
+}
 
-  , 65535
-    :	falsey ,
-} , @tag(	0
+packet chars {
+    @leftPad('\x00')
+    char[10] len @calculatedFrom(""a	b""),
+    @tag(00)
+    @tag(10)
+    uint64 matchKey,
+    x_y_z {
+        repeat string rootA `doc`,
+        tag,
+        repeat char MetaDataX,
+        int64 asx,
+    },// trailing space 
+    i16 stringy,
+    match x_y_z as BodyLength {
+        [
+            ""\" ++ [233]%N ++ runes_of_ascii """, """ ++ [28040; 24687]%N ++ runes_of_ascii """, 7, 0, 7,
+            4294967296
+        ] : A,
+        // " ++ [128512]%N ++ runes_of_ascii " emoji
+    },
+    @calculatedFrom(""\n"")
+    @leftPad()
+    f64 msg_type,
+    repeat Logon `say ""hi""`,
+    @tag(007)
+    match crc as msg_type {
+        [
+            ""a\\"", 0123456789, ""`tick`"", """ ++ [233]%N ++ runes_of_ascii "t" ++ [233]%N ++ runes_of_ascii """, ""{,}"",
+            255, 0123456789
+        ] : Header,
+        0123456789 : len,
+        65535 : BodyLength,
+        ""CRC32"" : string_,
+        4294967296 : len,
+        """ ++ [28040; 24687]%N ++ runes_of_ascii """ : trueish,
+    },
+    repeat string u,
+    lengthOf Z9_ `{ , }`,
+}// 50% %s
 
-    ) char[]body	@lengthOf(
-lengthOf
-),	u64	string_
-    `it's`
-    ,	@lengthOf(
-	string_ 	 // packet A { u8 x, }
+packet trueish {
+    f32 Logon @calculatedFrom(""1""),
+    i64 matchKey @calculatedFrom(""x y"") `" ++ [28040; 24687; 31867; 22411]%N ++ runes_of_ascii "`,
+    i8i8 `it's`,
+    msg_type,
+    uint8 lengthOf,
+    int trueish,
+    char[0123456789] uint8x,
+    i8 int @lengthOf(msg_type) `say ""hi""`,
+    @rightPad()
+    repeat f64 Z9_,
+    metadata {
+        falsey @calculatedFrom(""abc""),
+    },
+}")).
+Eval vm_compute in ("<<<M1970>>>" ++ check (runes_of_ascii "// top
+options {
+    LittleEndian = false;// c5
+    FixedStringPadChar = ' ';
+    // c9
+}// c10a
 
-	)
-crc 
+// c10b
+packet Fill {
+    // c13
+    InFlags6 {
+        // c15
+        repeat u64 count,
+    },// c21a
+    // c21b
+    char[8] price,
+    repeat char[2] lastPx,
+    // c32
+    char[] count,
+}// c36
+
+packet Quote {
+    // c39
+    char[] Qty,
+    int32 sym,
+    // c45
+    zchar[9] Flags,
+    int8 tag7,
+    // c53
+    char[7] count,// c58a
+    // c58b
+}// c59a
+
+// c59b
+packet Cancel {
+    string Acct,
+    @rightPad('\x00')
+    // c69
+    char[2] Note,// c74a
+    // c74b
+    zchar[5] Side2,
+    // c79
+}// c80a
+
+// c80b
+packet Trade {
+    repeat Quote,
+    // c86
+    Fill,
+    // c88
+    repeat i64 Side2,
+    // c92
+    uint16 Tail,
+    zchar[7] OrderId,// c100
+}
+
+// c101
+root packet Party {
+    repeat InLastpx79 {
+        // c108a
+        // c108b
+        char[12] Px,
+        int8 Tail,
+    },
+    f32 count,
+    // c121
+    repeat u8 Note,
+    // c125
+    Trade,// c127a
+    // c127b
+    f64 venue,// c130
+    @rightPad('\x00')
+    char[11] tag7,
+    u16 Px,// c142a
+    // c142b
+    u32 Side2 @lengthOf(Body),
+    match Px as Body {
+        [48, 188] : Fill,
+        // c161
+        190 : Trade,
+        160 : Quote,
+        // c169
+        85 : Cancel,
+    },
+    // c175
+}
+// c176")).
+Eval vm_compute in ("<<<M1817>>>" ++ check (runes_of_ascii "
+
+  MetaData 
+Z9_{	string roots 
+, 
+repeatCount
+
+    packetx `say ""hi""`,	}  
+      //
+  // packet A { u8 x, }
+packet
+
+    float
+
 { 
 repeat
+    char[]
+    metadata,
 
-zchar[
+    zchar[00 
+]
 
-3
+    leftPad @calculatedFrom(
 
-    ]
-    u, pack	// packet A { u8 x, }
-`a\`// trailing space 
-  ,
-char[] crc``
-, 
-}  //x
+    """ ++ [233]%N ++ runes_of_ascii "t" ++ [233]%N ++ runes_of_ascii """) `" ++ [233]%N ++ runes_of_ascii "` ,string
+T
+	@lengthOf( Pad
+)  `doc` , match 
+f32a  as	crc 
+{ ""x y"" 
+: Foo ,  // @lengthOf(
+
+  0  :_x 
+[
+""1""
+    ]  : 
+      // a // b
+  	// packet A { u8 x, }
+  As
+	[255 , 1,
+"""", 
+""1""
+
+    ,
+	""abc"" ,
+
+    """ ++ [233]%N ++ runes_of_ascii "t" ++ [233]%N ++ runes_of_ascii """,10 ] 
+: leftPad
+
+    , // @lengthOf(
+  ""{,}""
+: 
+a1
+
+4294967296
+	: body  ,
+
+//
+  }  ,
+
+    lengthOf 
+@calculatedFrom(
+	""\" ++ [233]%N ++ runes_of_ascii """)	,// packet A { u8 x, }
+      @calculatedFrom(""`tick`""
+	)
+
+@lengthOf( u
+	)
+
+    @leftPad (
+
+'0'
+)	match
+o as
+	BodyLength{[ 3  ,  1 ,	""a\\"",
+
+    ""`tick`"" 
+,  // @lengthOf(
+	1
+,  1
+]  :  asx ,
+[ ""a	b"" ,
+255
+, 3 ,
+
+""abc""
+, 65535
+    ] :asx
+	,  10:
+    Z9_  ,  [
+    10
+, //
+    	""CRC32""
+
+    ,7 
+]
+	: roots  ,
+
+    } , 
+// 50% %s
+
+u16
+
+a1
 
 ,
-int16 	 // packet A { u8 x, }
+@tag(
 
-metadata`line1
-line2`
+00
+
+    ) uint32
+MetaDataX`u8 x,`  , @leftPad (
+
+'\x00' )  @rightPad	//x
+  ()i64	calculatedFrom ,
+} ")).
+Eval vm_compute in ("<<<M122>>>" ++ check (runes_of_ascii "
+packet metadata { float // " ++ [27880; 37322]%N ++ runes_of_ascii "
+, repeat string calculatedFrom , @rightPad ( ' ' ) chars
+a1,
+    @leftPad ('0')	@tag(
+    255 ) @calculatedFrom( """ ++ [233]%N ++ runes_of_ascii "t" ++ [233]%N ++ runes_of_ascii """ )
+match trueish as x { // packet A { u8 x, }
+""x y"":
+calculatedFrom [
+    42 ]
+    // 50% %s
+    : float ,  3 // @lengthOf(
+:packetx // c
 ,
-
-    }root 
-packet  //	t
-	leftPad
-
-    {
-	repeat 
-zchar[ 
-4294967296//x
-  ]
-MetaDataX 
+} ,
+zchar[ 00 ]	crc , repeat
+char[ 1 ] roots`doc` ,// trailing space 
+match float as Logon
+{
+7 :metadata,
+    },@lengthOf(
+    Logon )
+    @tag(
+    00 ) @tag(42 )
+    match Logon as options1
+{7 :MetaDataX 3
+:// " ++ [128512]%N ++ runes_of_ascii " emoji
+calculatedFrom ,10 :Pad // 50% %s
+, [
+    """ ++ [128512]%N ++ runes_of_ascii """ , ""// no comment""
+]: packetx
 ,
-@tag(10  // `tick` ""quote"" 'q'
-    	)match
-tag  as
-falsey
-	{
-
-7
-
-:BodyLength
-,0
-    : i64_
-    ,},
-	repeat
-
-    char[
-
-    255 
-  // @lengthOf(
-		]
-A
-	,  char[ 
-7
-] trueish
-
-    @calculatedFrom(
-""a\\""
-) `two words`
-// " ++ [128512]%N ++ runes_of_ascii " emoji
+[ 42
+, ""packet"" , ""1""
+,
+""a\""b""
+, 42 ]: Z9_ },
+    float32// a // b
+falsey //	t
+`{ , }` ,
+@calculatedFrom( ""CRC32"" )i64 As
+    `doc`
+    ,
+}/// triple
+packet	_x // " ++ [27880; 37322]%N ++ runes_of_ascii "
+{
+repeat
     //	t
-	,
-	i16 Logon, }
+    u {
+    // " ++ [27880; 37322]%N ++ runes_of_ascii "
+    repeat zchar calculatedFrom//	t
+`a\` , leftPad A
+`it's` , string leftPad @lengthOf(Pad )``, } ,
+    }
+// a // b
 ")).
-Eval vm_compute in ("<<<M1638>>>" ++ check (runes_of_ascii "
-
-  //x
+Eval vm_compute in ("<<<M1417>>>" ++ check (runes_of_ascii "
+// a // b
   packet
 
-    x {
-	@lengthOf( 
-string_ 
-)  
-  // `tick` ""quote"" 'q'
-// trailing space 
-msg_type
-{int // a // b
-@lengthOf(
+    rootA
+    {@tag(
 
-    chars
-    ) 
-
-//x
-    // " ++ [27880; 37322]%N ++ runes_of_ascii "
-  	`" ++ [28040; 24687; 31867; 22411]%N ++ runes_of_ascii "`,	int `a\`
-
-    , }
-	,
-
-uint32 chars@calculatedFrom(
-	""`tick`"") 
-`
-`
-
-, @lengthOf( packetx // trailing space 
-
-)	match metadata	as
-    x_y_z{
-65535 :
-    x
-    ,	007 
-	    // `tick` ""quote"" 'q'
-	  // " ++ [128512]%N ++ runes_of_ascii " emoji
-
-:
-    u
-[
-
-    7,""// no comment""	, """ ++ [28040; 24687]%N ++ runes_of_ascii """
-	]
-	:
-x ""a\\""	: MetaDataX
-    ,
-0123456789
-:	lengthOf
-10
-
-    : 
-	    //
-  // `tick` ""quote"" 'q'
-    float  },
-u16
-	Logon
-    @calculatedFrom( ""x y"" )`tab	here` 
-      //	t
-    	//
-  ,
-@lengthOf( 
-Foo
-    )  zchar 	 /// triple
-    , }  packet
-
-tag 
-{}
-root
-
-packet x_y_z{
-	}	MetaData
-	int  {
-	string
-    A
-`" ++ [233]%N ++ runes_of_ascii "` , }
-
-")).
-Eval vm_compute in ("<<<M1327>>>" ++ check (runes_of_ascii "// top
-packet
-    // c0
-Logon { // c2a
-  // c2b
-string // c3a
-  // c3b
-user
-    // c4
-, // c5a
-  // c5b
-} // c6a
-  // c6b
-root
-    // c7
-packet Frame // c9a
-  // c9b
-{ // c10
-u8
-    // c11
-K // c12
-,
-    // c13
-match // c14
-K // c15
-as // c16
-Body
-    // c17
-{
-    // c18
-1 :
-    // c20
-Logon // c21
-, // c22a
-  // c22b
-2 // c23
-: // c24a
-  // c24b
-Logout // c25a
-  // c25b
-,
-    // c26
-} // c27
-, // c28a
-  // c28b
-Tail , // c30a
-  // c30b
-} // c31a
-  // c31b
-packet
-    // c32
-Logout // c33a
-  // c33b
-{ // c34a
-  // c34b
-u16 // c35a
-  // c35b
-reason
-    // c36
-, }
-    // c38
-packet
-    // c39
-Tail
-    // c40
-{
-    // c41
-u32 crc
-    // c43
-, // c44
-} // c45a
-  // c45b
-")).
-Eval vm_compute in ("<<<M147>>>" ++ check (runes_of_ascii "root
-    packet falsey{	@tag( 255) len@calculatedFrom( ""`tick`""
-    )//
-,match MetaDataX as
-crc
-{	[7 ] :
-    roots ,} ,	@tag( 10 ) @tag(
-// `tick` ""quote"" 'q'
-// `tick` ""quote"" 'q'
-10//
-) @tag( 255)	repeat /// triple
-uint64 rootA	, tag // a // b
-`" ++ [28040; 24687; 31867; 22411]%N ++ runes_of_ascii "` ,
-float32  i64_ , int64 _x  `doc` , @leftPad( ' '
-    )
-match
-// @lengthOf(
-// @lengthOf(
-i8i8 as pack { // `tick` ""quote"" 'q'
-7 : Logon , ""x y"" : lengthOf , } , // trailing space 
-match x_y_z as u
-{
-// `tick` ""quote"" 'q'
-// " ++ [27880; 37322]%N ++ runes_of_ascii "
-[ 0123456789 ] :	packetx ,007 :x_y_z
-// trailing space 
-//
-, 10 : rootA , 7 : u 0123456789 :falsey
-, }	, // packet A { u8 x, }
-}
-")).
-Eval vm_compute in ("<<<M1369>>>" ++ check (runes_of_ascii "  options	{ StringPrefixLenType= u8
-; ArrayPrefixLenType	=
-
-u8  ;	FixedStringPadFromLeft
-=false; FixedStringPadChar
-
-    =
-	' ';
-
-    }
-    packet
-Ack
-
-{
-char[]
-	tag7 , } 
-packet
-    Reject
-	{InSym61
-
-{
-
-repeat
-Ack
-	,
-
-zchar[4
-
-] f1 
-, } ,}
-
-packet Logout
-{char[
-
-    4
-	] clOrdID
-
-,}
-root
-
-    packet	Cancel {@leftPad ( ' '
-
+    0
 )
+string falsey @calculatedFrom(  ""// no comment"" 
+)	,  u32
+string_
 
-char[10]
+,	}
+	packet  Header	{ 
+        //	t
 
-    price,u8 x ,
-    u32 venue
+	repeat 	 // c
+      zchar[10	// " ++ [27880; 37322]%N ++ runes_of_ascii "
+] 
+Header`" ++ [28040; 24687; 31867; 22411]%N ++ runes_of_ascii "`
+,}root
+    packet 	 // trailing space 
+		charz
+    {
+@tag(42
+    )	f32	Z9_  // packet A { u8 x, }
 
-@lengthOf(
+  @calculatedFrom( ""a\""b"")  `it's`
 
-Body
-    ) ,
+    , @calculatedFrom(	""\" ++ [233]%N ++ runes_of_ascii """
+	)match
 
-match x as Body
-
-{  [
-    92,175]
-
-:
-Logout, 26
-
-    :	Reject
-	, 144 
-:
-
-Ack
-    , } ,  u16 
-count 
-@calculatedFrom(
-""CRC32""
-    )	, }
-
-")).
-Eval vm_compute in ("<<<M328>>>" ++ check (runes_of_ascii "
-packet
-Logon { repeatCount { BodyLength
-    `crlf
-line`, }
-    , zchar a1 `u8 x,`  ,
-match Foo as Foo { ""\n"" :i8i8,[
-""abc""
-    , // trailing space 
-""CRC32"" ]
-/// triple
-// " ++ [128512]%N ++ runes_of_ascii " emoji
-: // @lengthOf(
-crc
-    [ 3 ,
-//
-// " ++ [128512]%N ++ runes_of_ascii " emoji
-""x y"", 42 , ""`tick`""
-, 1 , ""a\""b"",
-    ""CRC32"" , 255 ]:repeatCount , [// " ++ [128512]%N ++ runes_of_ascii " emoji
-1
-// a // b
-// " ++ [27880; 37322]%N ++ runes_of_ascii "
-,007 ,
-""\n"",007 , 7 , ""// no comment"" ,
-255 ] :
-    uint8x 00
-: f32a , } ,
-    // a // b
-    uint16 Pad @lengthOf( uint8x)// packet A { u8 x, }
-`doc`  ,
-}")).
-Eval vm_compute in ("<<<M1297>>>" ++ check (runes_of_ascii "packet A { // c2a
-  // c2b
-u8
-    // c3
-a ,
-    // c5
-} // c6a
-  // c6b
-packet B // c8
-{ // c9
-u16
-    // c10
-b // c11
-, // c12
-} // c13a
-  // c13b
-root // c14a
-  // c14b
-packet // c15a
-  // c15b
-P
-    // c16
-{ u8 // c18a
-  // c18b
-K // c19
-, match // c21
-K // c22a
-  // c22b
-as // c23
-M // c24
-{ // c25a
-  // c25b
-1 : // c27a
-  // c27b
-A // c28a
-  // c28b
-,
-    // c29
-1
-    // c30
-: B
-    // c32
-,
-    // c33
-} // c34a
-  // c34b
-,
-    // c35
-} ")).
-Eval vm_compute in ("<<<M126>>>" ++ check (runes_of_ascii "
-packet T// c
-{ @tag(  00 )repeat char[]	charz
-`
-` , char[0123456789 ]BodyLength
-    @lengthOf( //x
-Z9_
-    )
-    `u8 x,`
-,
-}	MetaData
-crc {
-float64
-int `" ++ [28040; 24687; 31867; 22411]%N ++ runes_of_ascii "`// a // b
-,	As Logon `` , // `tick` ""quote"" 'q'
-uint8 // " ++ [27880; 37322]%N ++ runes_of_ascii "
-u
-, u32  stringy `
-`,
-// a // b
+    rootA  as
+    rootA  {
+    """ ++ [28040; 24687]%N ++ runes_of_ascii """:
 //	t
-uint64 uint8x , asx
-calculatedFrom	,//x
-} MetaData chars { char[ 1
-    // `tick` ""quote"" 'q'
-    ] //	t
-chars ,
-    } // trailing space ")).
-Eval vm_compute in ("<<<M1340>>>" ++ check (runes_of_ascii "  options	{
-LittleEndian = 
-true ;
+  x	7//
+	  :
+    charz }	, // c
+  int64
+metadata @calculatedFrom(
 
-    StringPrefixLenType  =u16
-;  FixedStringPadChar
-
-    =
-' ';}
-packet Logon
-{ @leftPad (	'0' )
-
-    char[ 10]
-tag7 
-, 
-}
-root packet	Ack{
-
-    int32 
-Px ,  uint16  count, string
-Qty
-,	string OrderId
-
-, 
-string
-Flags
-
+    """ ++ [233]%N ++ runes_of_ascii "t" ++ [233]%N ++ runes_of_ascii """  )
     ,
-	u8 x
-    ,match x
+	match  i8i8
     as
+	i64_
+    { 3  : Logon
+	, [
+	7, 
+""" ++ [28040; 24687]%N ++ runes_of_ascii """
+]: repeatCount
+    // `tick` ""quote"" 'q'
+,  ""\" ++ [233]%N ++ runes_of_ascii """
+:msg_type  //
+	,
+} 
+        //
+		, @lengthOf(
 
-    Body {  [ 58 ,
-169
-    ] : Logon	,
-    }  ,
+    Logon
 
+    )
+repeat
+
+    leftPad
+    BodyLength,repeat //	t
+uint8x `
+`
+	,
+} ")).
+Eval vm_compute in ("<<<M169>>>" ++ check (runes_of_ascii "MetaData
+i8i8	{
+char[// " ++ [128512]%N ++ runes_of_ascii " emoji
+00 ] msg_type
+`say ""hi""`  ,
+} // " ++ [128512]%N ++ runes_of_ascii " emoji
+MetaData// packet A { u8 x, }
+charz
+{ zchar[ 0
+]
+    options1 ,	}packet	MetaDataX
+{ // packet A { u8 x, }
+Header /// triple
+u8x`// not a comment` ,
+    x rootA , @lengthOf(falsey
+    )
+@lengthOf(
+//x
+// " ++ [27880; 37322]%N ++ runes_of_ascii "
+i8i8
+    )
+    match MetaDataX as stringy { [// " ++ [128512]%N ++ runes_of_ascii " emoji
+""" ++ [128512]%N ++ runes_of_ascii """ // @lengthOf(
+, ""a\""b""  ] : i64_// c
+,} , } MetaData
+    // `tick` ""quote"" 'q'
+    msg_type { string
+// `tick` ""quote"" 'q'
+// trailing space 
+zchar `doc` ,
+    //
+    } MetaData leftPad{ uint8 x`crlf
+line`
+, i32 msg_type
+// packet A { u8 x, }
+//x
+`// not a comment` ,
+char[255] leftPad , // a // b
+char[]
+    u , //	t
+} 	 ")).
+Eval vm_compute in ("<<<M107>>>" ++ check (runes_of_ascii "  MetaData As { }
+packet// 50% %s
+rootA {
+    zchar[ 4294967296	]  uint8x, @calculatedFrom( ""`tick`"") f64 asx	@calculatedFrom(""a\""b""
+), @leftPad('\x00'
+    // trailing space 
+    )// @lengthOf(
+@calculatedFrom(""1""	)
+    @lengthOf( stringy // " ++ [128512]%N ++ runes_of_ascii " emoji
+)repeat float falsey `say ""hi""` , repeat // @lengthOf(
+i64 A  ,
+    // a // b
+    @leftPad // trailing space 
+( ' ') @calculatedFrom( ""it's"" )
+chars	{  repeat char[] rootA ,  } , } packet roots{ @calculatedFrom( ""x y"")
+@lengthOf( crc ) u8 tag ,} MetaData
+    body // trailing space 
+{
+T	msg_type , _x
+Logon `two words`
+,
     }
 ")).
-Eval vm_compute in ("<<<M1942>>>" ++ check (runes_of_ascii "
-packet
-A
-{
-u8
-    a
+Eval vm_compute in ("<<<M1848>>>" ++ check (runes_of_ascii "packet msg_type {
+    @lengthOf(trueish)
+    @calculatedFrom(""packet"")
+    @rightPad()
+    trueish chars,
+}
 
-    ,} packet
-    B { 
+root packet i64_ {
+}
+
+packet charz {
+    // " ++ [128512]%N ++ runes_of_ascii " emoji
+    repeat float64 u8x `{ , }`,
+    roots @lengthOf(BodyLength) ``,
+    repeat string Header,
+    Z9_ @lengthOf(A),
+    @rightPad()
+    repeat len `" ++ [233]%N ++ runes_of_ascii "`,
+    float64 Foo @lengthOf(Header),
+    repeat char[0] charz `say ""hi""`,
+    string a1,
+    @leftPad('0')
+    metadata {
+        zchar[42] i8i8 @lengthOf(lengthOf),
+        //x
+        /// triple
+    },
+}
+
+options {
+}")).
+Eval vm_compute in ("<<<M303>>>" ++ check (runes_of_ascii "
+options
+{  charz
+    = false ; Z9_
+    = ""\" ++ [233]%N ++ runes_of_ascii """ ;// c
+} options { falsey
+= char[] ;} packet metadata {
+@tag(
+    4294967296
+    ) match int as
+    float
+{
+[ 0 ,0123456789
+,  42 ,7 ,""a\""b"" , 7 ]
+: zchar
+, ""1""  :options1
+//
+// " ++ [128512]%N ++ runes_of_ascii " emoji
+,
+    }, @tag(10 ) match msg_type
+as Foo  { ""a	b"" : rootA , 65535
+    : roots /// triple
+, 00:// `tick` ""quote"" 'q'
+trueish,""\" ++ [233]%N ++ runes_of_ascii """
+    : MetaDataX,
+//x
+// 50% %s
+00
+    :Logon ,
+} ,repeat len packetx
+,
+    @lengthOf(Foo ) len`two words`	, roots, } //x")).
+Eval vm_compute in ("<<<M1641>>>" ++ check (runes_of_ascii "packet int
+{ uint16 BodyLength
+
+, 
+zchar[255 ] charz 	 // @lengthOf(
+    `100% of %d`
+    , Logon
+@lengthOf( MetaDataX)
+,	}
+
+packet	// " ++ [27880; 37322]%N ++ runes_of_ascii "
+a1{
+
+    match pack as // `tick` ""quote"" 'q'
+    msg_type
+	{ 10
+:float
+,""" ++ [233]%N ++ runes_of_ascii "t" ++ [233]%N ++ runes_of_ascii """ 
+:
+	charz
+,
+	4294967296 : 
+Foo
+
+    ,
+
+""" ++ [233]%N ++ runes_of_ascii "t" ++ [233]%N ++ runes_of_ascii """ 
+:	u128,	} ,
+    repeat
+
+Pad 
+{ repeat Foo 
+  //x
+{ uint64 
+    // `tick` ""quote"" 'q'
+      Header,repeat
+
+    roots  rootA 
+`say ""hi""`, }
+    ,
+	}
+,} 
+packet
+	Header{
+    }
+")).
+Eval vm_compute in ("<<<M1384>>>" ++ check (runes_of_ascii "options {
+    LittleEndian = false;
+    StringPrefixLenType = u16;
+    FixedStringPadFromLeft = true;
+    FixedStringPadChar = '0';
+}
+packet Fill {
+}
+root packet Order {
+    repeat Fill,
+    char[] clOrdID,
+    @rightPad('\x00') char[4] lastPx,
+    char[] OrderId,
+    int8 tag7,
+    u8 f1,
+    u16 count @lengthOf(Body),
+    match f1 as Body {
+        [159, 49] : Fill,
+    },
+    u16 Tail @calculatedFrom(""CRC32""),
+}
+")).
+Eval vm_compute in ("<<<M1362>>>" ++ check (runes_of_ascii "options
+
+    {
+	LittleEndian
+= true
+	;StringPrefixLenType 
+=u16  ;
+	ArrayPrefixLenType=
+
 u16
 
-    b
-	,	} 
-packet	C 
-{u32 c
-    ,
-    } root 
-packet	M	{
-u16 
-Kc	,  u16
-	Kb , u16 Ka
-,	match
-    Kc
+    ; 
+FixedStringPadFromLeft
+= true
+;
+FixedStringPadChar
 
-    as
-    X
-{
-    9
+    =  '0' ;
 
-    :  A , 10: B
-,  } ,  match
-Kb 
-as
+    }	packet	Leg { u16 Flags
+, 
+u8
+price , 
+} packet
 
-    Y
-
-    {	2
-:
-	C
-
-,1
-
-    :
-A,}	, match
-
-Ka
-as
-	Z { 
-1 :B
-,}
-
-    ,	A  ,  B	,
-C
-    ,
-} ")).
-Eval vm_compute in ("<<<M1439>>>" ++ check (runes_of_ascii "
-packet
-
-    len{  // trailing space 
-
-repeat
-    zchar 
-f32a
-
-`// not a comment`  ,
-@tag(
-    255
-)
-	repeat 
-Pad {
-	x
-T
-,  }
-	, 
-@calculatedFrom(""{,}"")
-    repeat
-	    // a // b
-  leftPad
-
-    { 
-u64
-
-u8x`tab	here`
-    ,  o
-Packet 
-, char[]
-	chars  ,
-},
-    @tag( 
-3 ) float64  i8i8
-    ,}")).
-Eval vm_compute in ("<<<M1603>>>" ++ check (runes_of_ascii "packet MDSnapshotZZ {
-    u8 a,
-}
-
-packet OrderACK {
-    u16 b,
-}
-
-packet HTTPServerInfo {
-    string s,
-}
-
-root packet FIXMsg {
-    u8 KType,
-    MDSnapshotZZ,
-    repeat OrderACK,
-    match KType as Body {
-        1 : HTTPServerInfo,
-        2 : OrderACK,
-    },
-}")).
-Eval vm_compute in ("<<<M214>>>" ++ check (runes_of_ascii "MetaData tag {body Packet	, int16 // @lengthOf(
-body // `tick` ""quote"" 'q'
-, f32a uint8x , } packet falsey {
-x { char[ 7 ] lengthOf , char[] o
-    `say ""hi""`
-    // `tick` ""quote"" 'q'
-    ,
-//
-/// triple
-}
-,}
-// `tick` ""quote"" 'q'
-")).
-Eval vm_compute in ("<<<M1498>>>" ++ check (runes_of_ascii "root packet int {
-    f32a @calculatedFrom(""packet"") `
-    `,
-}
-
-options {
-    rootA = ""\" ++ [233]%N ++ runes_of_ascii """;
-}
-
-packet i8i8 {
-    // trailing space 
-    uint8 uint8x @lengthOf(string_),
-    i32 tag @lengthOf(Logon),
-}")).
-Eval vm_compute in ("<<<M1623>>>" ++ check (runes_of_ascii "
-packet
-
-A 
+    Quote
 {
 
-match
+    uint16
 
-    k as n { 
-[ ""a""
-	,""bb""
-
-    , 
-007,	""d""  ,""e""
-
-    ,
-	66
-    ,
-""g""
-
-,  ""h"" ,9
-
-    ,
-
-    ""j"",""k""  ,  12	]
-
-    :
-B 2:
-	C
-
-    } ,
-}
-")).
-Eval vm_compute in ("<<<M60>>>" ++ check (runes_of_ascii "root packet _x
-{ uint32 trueish @calculatedFrom( ""1"" ) `crlf
-line`
-,  }
-    //
-    packet	Header { repeat u64
-stringy `// not a comment` , float32  msg_type ,}
-")).
-Eval vm_compute in ("<<<M438>>>" ++ check (runes_of_ascii "packet uint8x
-{ match pack
-    as msg_type	{
-    0123456789 `it's`	float
-}
-,
-} packet //	t
-a1
-    { } options {packetx
-    = '\x00'	; u128= ""a	b""  ; }
-")).
-Eval vm_compute in ("<<<M486>>>" ++ check (runes_of_ascii "packet uint8x
-{ match pack
-    as msg_type	{
-    0123456789 :	float
-}
-,
-} packet //	t
-a1
-    { } options { {packetx
-    = '\x00'	; u128= ""a	b""  ; }
-")).
-Eval vm_compute in ("<<<M407>>>" ++ check (runes_of_ascii "packet uint8x
-{ pack match
-    as msg_type	{
-    0123456789 :	float
-}
-,
-} packet //	t
-a1
-    { } options {packetx
-    = '\x00'	; u128= ""a	b""  ; }
-")).
-Eval vm_compute in ("<<<M425>>>" ++ check (runes_of_ascii "packet uint8x
-{ match pack
-    as msg_type	
-    0123456789 :	float
-}
-,
-} packet //	t
-a1
-    { } options {packetx
-    = '\x00'	; u128= ""a	b""  ; }
-")).
-Eval vm_compute in ("<<<M1455>>>" ++ check (runes_of_ascii "root packet packetx {
-    char[1] chars @calculatedFrom(""packet"") `say ""hi""`,
-}
-
-options {
-    asx = 65535
-    u = float64
-    repeatCount = ""\" ++ [233]%N ++ runes_of_ascii """
-}")).
-Eval vm_compute in ("<<<M500>>>" ++ check (runes_of_ascii "packet uint8x
-{ match pack
-    as msg_type	{
-    0123456789 :	float
-}
-,
-} packet //	t
-a1
-    { } options {packetx
-    = 	; u128= ""a	b""  ; }
-")).
-Eval vm_compute in ("<<<M185>>>" ++ check (runes_of_ascii "root packet lengthOf{ @leftPad
-    (
-' '// c
-)
-repeat char MetaDataX
-,
-}MetaData
-Pad {
-msg_type rootA// trailing space 
-`// not a comment`, }")).
-Eval vm_compute in ("<<<M686>>>" ++ check (runes_of_ascii "// @lengthOf(
-packet i8i8 { u128 o , }
-options { f64 = true;
-    BodyLength =""packet"" x_y_z= 007
-crc //x
-= ""abc"" ;
-    msg_type =
-i16 }")).
-Eval vm_compute in ("<<<M1296>>>" ++ check (runes_of_ascii "packet A {
-    u8 a,
-}
-packet B {
-    u16 b,
-}
-root packet P {
-    u8 K,
-    match K as M {
-        1 : A,
-        1 : B,
-    },
-}
-")).
-Eval vm_compute in ("<<<M1506>>>" ++ check (runes_of_ascii "  packet
-    A
-    { match 
-k as
-n	{ [
-1
-
-    , 22
-
-, 007 , 4
-
-,  5 ,
-	66 ]
-
-    : B
-
-    ,
-    2 :
-    C 
-} ,
-    } ")).
-Eval vm_compute in ("<<<M1147>>>" ++ check (runes_of_ascii "MetaData leftPad { // c
-chars MetaDataX , } packet repeatCount { char[ 255 ] uint8x `" ++ [233]%N ++ runes_of_ascii "` , } MetaData pack { As Foo , }")).
-Eval vm_compute in ("<<<M1179>>>" ++ check (runes_of_ascii "MetaData leftPad { chars MetaDataX , } packet repeatCount { char[ 255 ] uint8x `" ++ [233]%N ++ runes_of_ascii "` , } MetaData pack // c
-{ As Foo , }")).
-Eval vm_compute in ("<<<M1796>>>" ++ check (runes_of_ascii "packet	A
-{match
-    k as 
-n
-{  [	1
-
-,
-22 ,""c c""
-, 4
+count
 	,
+    InNote89
 
-    5 
-,""f"" , 
-7
-    ]
-    :
+{	repeat  Leg, }
 
-    B
-	2
-:
-C 
-},
+,} root
+packet
+Ack {  char[
+	3
 
+    ] price , u64 sym, 
+zchar[
+1 
+]
+
+Tail, }
+")).
+Eval vm_compute in ("<<<M1159>>>" ++ check (runes_of_ascii "// top
+MetaData // c0
+x // c1
+{ // c2
+f32a // c3
+Pad // c4
+`` // c5
+, // c6
+} // c7
+packet // c8
+leftPad // c9
+{ // c10
+repeat // c11
+int64 // c12
+crc // c13
+, // c14
+BodyLength // c15
+{ // c16
+uint8 // c17
+pack // c18
+`say ""hi""` // c19
+, // c20
+lengthOf // c21
+@lengthOf( // c22
+asx // c23
+) // c24
+`" ++ [28040; 24687; 31867; 22411]%N ++ runes_of_ascii "` // c25
+, // c26
+} // c27
+, // c28
+} // c29
+")).
+Eval vm_compute in ("<<<M1373>>>" ++ check (runes_of_ascii "options {
+    StringPrefixLenType = u16;
+    ArrayPrefixLenType = u64;
+}
+packet Order {
+    float64 Ref,
+    repeat i32 lastPx,
+}
+packet Fill {
+    zchar[9] Ref,
+    zchar[4] Px,
+    Order,
+    int8 count,
+}
+packet Cancel {
+    i16 Side2,
+    Order,
+}
+root packet Party {
+    float64 Px,
+    zchar[1] clOrdID,
 }
 ")).
-Eval vm_compute in ("<<<M955>>>" ++ check (runes_of_ascii "packet A {
-    u16 len @lengthOf(body) `
-x`,
-    u32 crc @calculatedFrom(""CRC32"") `
-x`,
+Eval vm_compute in ("<<<M340>>>" ++ check (runes_of_ascii "packet o {
+    float64  zchar
+@lengthOf(trueish ) // `tick` ""quote"" 'q'
+, } packet packetx
+    {  } root	packet trueish { char[1 ]Z9_ @lengthOf( body
+    ) , @lengthOf(chars
+)
+    msg_type i64_ , u16
+Logon ,
+int64 Packet
+    // `tick` ""quote"" 'q'
+    , // packet A { u8 x, }
+}
+")).
+Eval vm_compute in ("<<<M1465>>>" ++ check (runes_of_ascii "packet BodyLength {
+}
+
+MetaData Z9_ {
+    // c
+    Z9_ _x,
+}
+
+packet float {
+    @tag(42)
+    @calculatedFrom(""// no comment"")
+    char[42] packetx `it's`,
+}
+
+MetaData body {
+    uint16 zchar `" ++ [233]%N ++ runes_of_ascii "`,
+    i32 Pad `" ++ [28040; 24687; 31867; 22411]%N ++ runes_of_ascii "`,
+    i8 Header,
+    u16 u128,
+    i32 u,
+}")).
+Eval vm_compute in ("<<<M390>>>" ++ check (runes_of_ascii "4294967296
+    asx { @calculatedFrom(
+""""  ) @tag( 255 )repeat
+// packet A { u8 x, }
+// trailing space 
+int16 u8x
+,
+@tag(
+    //
+    007 )
+    @tag( 0
+    /// triple
+    ) @tag( 1) u
+    @lengthOf( T ),
+// `tick` ""quote"" 'q'
+//x
+} // " ++ [128512]%N ++ runes_of_ascii " emoji")).
+Eval vm_compute in ("<<<M531>>>" ++ check (runes_of_ascii "packet
+    asx { @calculatedFrom(
+""""  ) @tag( 255 )repeat
+// packet A { u8 x, }
+// trailing space 
+int16 u8x
+,
+@tag(
+    //
+    007 )
+    @tag( 0" ++ [8232]%N ++ runes_of_ascii "
+    /// triple
+    ) @tag( 1) u
+    @lengthOf( T ),
+// `tick` ""quote"" 'q'
+//x
+} // " ++ [128512]%N ++ runes_of_ascii " emoji")).
+Eval vm_compute in ("<<<M478>>>" ++ check (runes_of_ascii "packet
+    asx { @calculatedFrom(
+""""  ) @tag( 255 )repeat
+// packet A { u8 x, }
+// trailing space 
+int16 u8x
+,
+@tag(
+    //
+    007 )
+    @tag( 0
+    /// triple
+    @tag( ) 1) u
+    @lengthOf( T ),
+// `tick` ""quote"" 'q'
+//x
+} // " ++ [128512]%N ++ runes_of_ascii " emoji")).
+Eval vm_compute in ("<<<M394>>>" ++ check (runes_of_ascii "packet
+    { { @calculatedFrom(
+""""  ) @tag( 255 )repeat
+// packet A { u8 x, }
+// trailing space 
+int16 u8x
+,
+@tag(
+    //
+    007 )
+    @tag( 0
+    /// triple
+    ) @tag( 1) u
+    @lengthOf( T ),
+// `tick` ""quote"" 'q'
+//x
+} // " ++ [128512]%N ++ runes_of_ascii " emoji")).
+Eval vm_compute in ("<<<M206>>>" ++ check (runes_of_ascii "options
+{ crc
+    ='\x00' ; uint8x = // " ++ [27880; 37322]%N ++ runes_of_ascii "
+""x y""; a1= """ ++ [28040; 24687]%N ++ runes_of_ascii """
+o =
+    '\x00'
+// trailing space 
+// trailing space 
+charz = 4294967296 //
+}
+    options  {
+    // " ++ [128512]%N ++ runes_of_ascii " emoji
+    stringy
+// `tick` ""quote"" 'q'
+// 50% %s
+= '0'; }
+")).
+Eval vm_compute in ("<<<M1973>>>" ++ check (runes_of_ascii "// top
+options {
+    // c1
+}// c2
+
+options {
+    // c4
+    MetaDataX = char;// c8
+}// c9
+
+MetaData Pad {
+    // c12
+    i8 metadata,// c15
+    string stringy,// c18
+    int8 As `{ , }`,// c22
+}// c23")).
+Eval vm_compute in ("<<<M505>>>" ++ check (runes_of_ascii "packet
+    asx { @calculatedFrom(
+""""  ) @tag( 255 )repeat
+// packet A { u8 x, }
+// trailing space 
+int16 u8x
+,
+@tag(
+    //
+    007 )
+    @tag( 0
+    /// triple
+    ) @tag( 1) u")).
+Eval vm_compute in ("<<<M639>>>" ++ check (runes_of_ascii "MetaData u
+    { } MetaData o
+{ float uint8x
+`100% of %d` ,repeatCount u8x, string_ leftPad
+, i32
+    `two words` , int64 x `two words` , calculatedFrom
+stringy `a\` ,
+}
+")).
+Eval vm_compute in ("<<<M557>>>" ++ check (runes_of_ascii "MetaData u
+    { { } MetaData o
+{ float uint8x
+`100% of %d` ,repeatCount u8x, string_ leftPad
+, i32
+    Foo , int64 x `two words` , calculatedFrom
+stringy `a\` ,
+}
+")).
+Eval vm_compute in ("<<<M1653>>>" ++ check (runes_of_ascii "  packet A 
+{
+	match
+k
+as
+
+    n  {
+	[
+    ""a"" , ""bb""
+	, ""c c"" ,
+	""d""
+
+, 
+""e""
+
+, 
+""f"" , ""g"",
+
+    ""h""	, ""i""
+
+,
+
+""j""
+	,	""k"", ""l"" ] 
+:
+	B
+
+2 :
+
+    C
+
+    },}
+")).
+Eval vm_compute in ("<<<M668>>>" ++ check (runes_of_ascii "MetaData u
+    { } MetaData o
+{ float uint8x
+`100% of %d` ,repeatCount u8x, string_ leftPad
+, i32
+    Foo , int64 x `two words` , stringy
+calculatedFrom `a\` ,
+}
+")).
+Eval vm_compute in ("<<<M689>>>" ++ check (runes_of_ascii "MetaData u
+    { } MetaData o
+{ float uint8x
+`100% of %d` ,repeatCount u8x, string_ leftPad
+, i32
+    Foo , int64 x `two words` , calculatedFrom
+stringy `a\` ,")).
+Eval vm_compute in ("<<<M203>>>" ++ check (runes_of_ascii "options { Foo
+    =true len = '0' ; metadata
+=
+    u32
+;repeatCount =42
+}
+MetaData lengthOf {}
+    options {options1
+= zchar[
+    0123456789  ] } // " ++ [27880; 37322]%N)).
+Eval vm_compute in ("<<<M1765>>>" ++ check (runes_of_ascii "
+options
+
+    {  }options
+{
+
+    MetaDataX
+=
+char 
+;  } MetaData 
+Pad 
+{ 
+i8 metadata,
+	string
+stringy
+
+    , int8	As // c
+    	`{ , }`
+
+,
+}")).
+Eval vm_compute in ("<<<M1277>>>" ++ check (runes_of_ascii "
+
+  packet
+
+    B { u8
+    a ,
+}root
+packet
+P { u8 
+K,
+	match
+    K
+    as
+	Body{
+
+1 :
+
+B , } ,u16 L
+    @lengthOf( 
+Body  ) ,
+}
+")).
+Eval vm_compute in ("<<<M1676>>>" ++ check (runes_of_ascii "packet A {
+    u16 len @lengthOf(body) `tab
+        	x`,
+    u32 crc @calculatedFrom(""CRC32"") `tab
+        	x`,
     string body,
 }")).
-Eval vm_compute in ("<<<M889>>>" ++ check (runes_of_ascii "packet A {
-  match k as n {
-    [""a"", ""bb"", 007, ""d"", ""e"", 66, ""g"", ""h"", 9, ""j""] : B
-    2 : C
-  },
+Eval vm_compute in ("<<<M199>>>" ++ check (runes_of_ascii "MetaData matchKey { u8
+T	, rootA _x	, falsey options1
+`100% of %d` , zchar[ 7 ] msg_type
+, zchar /// triple
+charz ,
 }")).
-Eval vm_compute in ("<<<M1497>>>" ++ check (runes_of_ascii "root
-
-packet 
-SimpleMessage{
-uint16
-    MsgType `" ++ [28040; 24687; 31867; 22411]%N ++ runes_of_ascii "`
-
-,
-
-string
-JsonBody `Json" ++ [23383; 31526; 20018; 28040; 24687; 20307]%N ++ runes_of_ascii "`
-	,
-    }")).
-Eval vm_compute in ("<<<M615>>>" ++ check (runes_of_ascii "
-packet
-    asx {match u128 as lengthOf
-{
-//	t
-// `tick` ""quote"" 'q'
-255 : x ,
-    match ,	}")).
-Eval vm_compute in ("<<<M645>>>" ++ check (runes_of_ascii "
-packet
-    asx {match u128 as lengthOf
-{
-//	t
-// `tick` ""quote"" 'q'
-255 : a" ++ [769]%N ++ runes_of_ascii "b ,
-    } ,	}")).
-Eval vm_compute in ("<<<M599>>>" ++ check (runes_of_ascii "
-packet
-    asx {match u128 as lengthOf
-{
-//	t
-// `tick` ""quote"" 'q'
-255 x : ,
-    } ,	}")).
-Eval vm_compute in ("<<<M845>>>" ++ check (runes_of_ascii "packet A {
-  match k as n {
-    [""a"", 22, ""c c"", 4, ""e"", 66, ""g""] : B,
-    2 : C
-  },
-}")).
-Eval vm_compute in ("<<<M1302>>>" ++ check (runes_of_ascii "packet order_item {
-    u8 a,
+Eval vm_compute in ("<<<M1206>>>" ++ check (runes_of_ascii "options {
+// c
+} options { MetaDataX = char ; } MetaData Pad { i8 metadata , string stringy , int8 As `{ , }` , }")).
+Eval vm_compute in ("<<<M1238>>>" ++ check (runes_of_ascii "options { } options { MetaDataX = char ; } MetaData Pad { i8 metadata , string stringy
+// c
+, int8 As `{ , }` , }")).
+Eval vm_compute in ("<<<M374>>>" ++ check (runes_of_ascii "
+packet options1{
+repeat char[] A `" ++ [233]%N ++ runes_of_ascii "`
+//x
+// 50% %s
+, float rootA
+    ,  Foo ,
+    } root packet Z9_  {
 }
-root packet new_order {
-    order_item,
+")).
+Eval vm_compute in ("<<<M1580>>>" ++ check (runes_of_ascii "
+// top
+	options
+	// c0
+	{ 
+	// c1
+  A
+
+// c2
+		=
+// c3
+""// no comment""
+    // c4
+	  }
+// c5
+")).
+Eval vm_compute in ("<<<M883>>>" ++ check (runes_of_ascii "packet A {
+  match k as n {
+    [""a"", 22, ""c c"", 4, ""e"", 66, ""g"", 8, ""i"", 10] : B
+    2 : C
+  },
+}")).
+Eval vm_compute in ("<<<M1293>>>" ++ check (runes_of_ascii "root packet
+
+    P
+{
+    u16  a ,
+u32
+    Sum
+
+    @calculatedFrom(
+	""CRC32"" ) ,
+
+    } ")).
+Eval vm_compute in ("<<<M1727>>>" ++ check (runes_of_ascii "
+
+  packet A{	// a
+  @tag(
+
+    1)  u8 x , // b
+
+	// c
+  @tag(
+2	)
+u8
+
+    y , 
+} ")).
+Eval vm_compute in ("<<<M1257>>>" ++ check (runes_of_ascii "options {
+    LittleEndian = true;
+}
+root packet P {
+    repeat char cs,
     u8 x,
 }
 ")).
-Eval vm_compute in ("<<<M1451>>>" ++ check (runes_of_ascii "options {
-    FixedStringPadFromLeft = true;
-}
+Eval vm_compute in ("<<<M1847>>>" ++ check (runes_of_ascii "
 
-root packet P {
-    char[4] z,
-}")).
-Eval vm_compute in ("<<<M803>>>" ++ check (runes_of_ascii "packet A {
-  match k as n {
-    [""a"", ""bb"", ""c c"", ""d""] : B
-    2 : C
-  },
-}")).
-Eval vm_compute in ("<<<M807>>>" ++ check (runes_of_ascii "packet A {
-  match k as n {
-    [""a"", 22, ""c c"", 4] : B
-    2 : C
-  },
-}")).
-Eval vm_compute in ("<<<M792>>>" ++ check (runes_of_ascii "packet A {
-  match k as n {
-    [1, ""bb"", 007] : B
-    2 : C
-  },
-}")).
-Eval vm_compute in ("<<<M365>>>" ++ check (runes_of_ascii "MetaData x_y_z { i8i8 u8x , string	uint8x
-    `crlf
-line` , }")).
-Eval vm_compute in ("<<<M776>>>" ++ check (runes_of_ascii "packet A {
-  match k as n {
-    [""a""] : B
-    2 : C
-  },
-}")).
-Eval vm_compute in ("<<<M1242>>>" ++ check (runes_of_ascii "root packet
-    P {
+  packet  _x
+{	}
+    root
+	packet 
+leftPad {	} 
+options{Pad
+=
 
-    char
-	c
-    , u8  x 
-,
+    string;}
 
-}
 ")).
-Eval vm_compute in ("<<<M1502>>>" ++ check (runes_of_ascii "MetaData M {
-    u8 x `x
-    `,
-    T t `x
-    `,
+Eval vm_compute in ("<<<M1430>>>" ++ check (runes_of_ascii "packet A {
+    // a
+    @tag(1)
+    u8 x,// b
+    // c
+    @tag(2)
+    u8 y,
 }")).
-Eval vm_compute in ("<<<M763>>>" ++ check (runes_of_ascii "@calculatedFrom( true ; MetaData """ ++ [233]%N ++ runes_of_ascii "t" ++ [233]%N ++ runes_of_ascii """ match")).
-Eval vm_compute in ("<<<M1621>>>" ++ check (runes_of_ascii "
-packet A
-    { 	 // a
-  	u8 x
-    , }
-")).
-Eval vm_compute in ("<<<M50>>>" ++ check (runes_of_ascii "options {
-    Packet =  char[]  }
-")).
-Eval vm_compute in ("<<<M1471>>>" ++ check (runes_of_ascii "
-// c" ++ [8192]%N ++ runes_of_ascii "
-packet
-A
+Eval vm_compute in ("<<<M1941>>>" ++ check (runes_of_ascii "root packet
+    P
     {
-
-    } ")).
-Eval vm_compute in ("<<<M1028>>>" ++ check (runes_of_ascii "packet A {
- u8 x `d" ++ [8287]%N ++ runes_of_ascii "`, // c" ++ [8287]%N ++ runes_of_ascii "
+u16 a
+,
+	u32
+	Sum @calculatedFrom(""CRC32""  )
+, 
 }")).
-Eval vm_compute in ("<<<M1819>>>" ++ check (runes_of_ascii "packet A {
-    char[3] x,
-}")).
-Eval vm_compute in ("<<<M1104>>>" ++ check (runes_of_ascii "
-// c
-MetaData tag { }")).
-Eval vm_compute in ("<<<M1136>>>" ++ check (runes_of_ascii "MetaData u { } // c
+Eval vm_compute in ("<<<M1809>>>" ++ check (runes_of_ascii "
+packet
+	int	// 50% %s
+{ Logon	@calculatedFrom( ""1""
+)
+,	} // 50% %s
 ")).
-Eval vm_compute in ("<<<M991>>>" ++ check (runes_of_ascii "packet A {
+Eval vm_compute in ("<<<M1180>>>" ++ check (runes_of_ascii "// top
+options // c0a
+  // c0b
+{ A
+    // c2
+= ""// no comment"" } ")).
+Eval vm_compute in ("<<<M1121>>>" ++ check (runes_of_ascii "// top
+MetaData
+    // c0
+tag
+    // c1
+{ // c2
 }
-// c" ++ [133]%N)).
-Eval vm_compute in ("<<<M1233>>>" ++ check (runes_of_ascii "packet x { }
-// c
+    // c3
 ")).
-Eval vm_compute in ("<<<M1659>>>" ++ check (runes_of_ascii "packet falsey {
+Eval vm_compute in ("<<<M205>>>" ++ check (runes_of_ascii "
+options { f32a =
+true
+    // " ++ [128512]%N ++ runes_of_ascii " emoji
+    ; } // " ++ [128512]%N ++ runes_of_ascii " emoji")).
+Eval vm_compute in ("<<<M1821>>>" ++ check (runes_of_ascii "options{
+
+    A  =	// c
+		""// no comment"" 
+}
+")).
+Eval vm_compute in ("<<<M1444>>>" ++ check (runes_of_ascii "MetaData
+float {  uint16
+
+    float
+
+, }")).
+Eval vm_compute in ("<<<M768>>>" ++ check (runes_of_ascii "w<w-(B[D_CTb}.VTf6[j)R_7Mxw1`%hl?2D>/d")).
+Eval vm_compute in ("<<<M1189>>>" ++ check (runes_of_ascii "options { A = // c
+""// no comment"" }")).
+Eval vm_compute in ("<<<M742>>>" ++ check (runes_of_ascii "i16 string match { MetaData uint8")).
+Eval vm_compute in ("<<<M1764>>>" ++ check (runes_of_ascii "packet A {
+    // a
+    u8 x,
 }")).
-Eval vm_compute in ("<<<M241>>>" ++ check (runes_of_ascii "/// triple
-")).
-Eval vm_compute in ("<<<M1050>>>" ++ check (runes_of_ascii "// c" ++ [65279]%N)).
+Eval vm_compute in ("<<<M759>>>" ++ check ([15]%N ++ runes_of_ascii "2	k" ++ [65533]%N ++ runes_of_ascii "p" ++ [65533; 65533]%N ++ runes_of_ascii "6" ++ [65533]%N ++ runes_of_ascii "f" ++ [65533]%N ++ runes_of_ascii "@""y" ++ [65533; 25; 65533; 65533]%N ++ runes_of_ascii "?" ++ [65533; 65533; 65533]%N ++ runes_of_ascii "Y" ++ [65533; 65533]%N ++ runes_of_ascii "#" ++ [65533]%N)).
+Eval vm_compute in ("<<<M1103>>>" ++ check (runes_of_ascii "packet A { // a
+ u8 x, }")).
+Eval vm_compute in ("<<<M1088>>>" ++ check (runes_of_ascii "// a// bpacket A {}")).
+Eval vm_compute in ("<<<M1020>>>" ++ check (runes_of_ascii "packet A {
+}
+// c" ++ [8192]%N)).
+Eval vm_compute in ("<<<M727>>>" ++ check (runes_of_ascii "// only a comment")).
+Eval vm_compute in ("<<<M1532>>>" ++ check (runes_of_ascii "MetaData tag {
+}")).
+Eval vm_compute in ("<<<M395>>>" ++ check (runes_of_ascii "packet")).
+Eval vm_compute in ("<<<M726>>>" ++ check (runes_of_ascii "		")).
